@@ -16,6 +16,19 @@ from vf.models.base import Model
 REWARD_TWINS = {"n10s": "n10d", "n10d": "n10s", "n50d": "n50s", "n50s": "n50d"}
 
 
+
+def _ks(n, budget):
+    def f():
+        from jumanji.environments import Knapsack
+        from jumanji.environments.packing.knapsack.generator import RandomGenerator
+
+        return Knapsack(generator=RandomGenerator(num_items=n, total_budget=budget))
+    return f
+
+
+# extra generator configurations for C10: a single item, many items with a tiny budget
+EXTRA_INSTANCE_CONFIGS = {"x_n1b05": _ks(1, 0.5), "x_n200b1": _ks(200, 1.0)}
+
 class M(Model):
     ENV = "Knapsack"
     REWARD_TWINS = REWARD_TWINS  # the C08 driver looks the table up on the model instance
